@@ -334,7 +334,7 @@ def run (s : St) (ls : List Label) : St := ls.foldl step s
 def pushPoint : PushPc → Nat
   | .ldTail => 1 | .ldHead _ => 2 | .write _ => 3 | .stTail _ => 4
 def popPoint : PopPc → Nat
-  | .ldHead => 5 | .ldTail _ => 6 | .read _ => 7 | .stHead _ _ => 8
+  | .ldHead => 5 | .ldTail _ => 6 | .retNone => 10 | .read _ => 7 | .stHead _ _ => 8
 
 def PPc.point : PPc → Nat
   | .acq .. => 20 | .chk .. => 21 | .push _ _ _ p => pushPoint p | .ntf .. => 23 | .tryLock .. => 22
